@@ -22,6 +22,7 @@ EXPLANATION = (
     "on every path; (U4) add_entries catches exactly the exception type the rejections raise and collects the offending entry; (U5) "
     "the shipped databases satisfy the uniqueness invariant (no two records share a formula or a SMILES) - exhaustive.  "
     "Correctness of decompose itself is C07."
+    ' U4 also requires the bulk-add loop to iterate the entries parameter itself; (U6) the composition recorded by add_entry is decompose(smiles), whose element keys, atom set and charge follow C07-E1/E2/E3 (shared).'
 )
 ASSUMPTIONS = ["list.append / list.remove mutate by exactly one element", "decompose is correct (C07)"]
 
